@@ -69,6 +69,25 @@ fn pool_tagged(rng: &mut Rng, corpus: &Corpus, n: usize) -> Vec<(Vec<u8>, Normal
         tags.push("astral");
     }
     let mut out = vec![];
+    // inputs of 25..60 kB analysed as ONE window (chunk_size 65,536): the decoded chunk handed to the memoised heuristics is
+    // far larger than anything the default window produces
+    for _ in 0..3 {
+        let enc = *rng.pick(&["windows-1251", "windows-1252", "iso-8859-7", "utf-8"]);
+        let mut b: Vec<u8> = vec![];
+        while b.len() < 25_000 + rng.below(30_000) {
+            let t = rng.pick(&corpus.texts);
+            b.extend_from_slice(&encode_text(t, enc).unwrap_or_else(|| t.as_bytes().to_vec()));
+            b.push(b'\n');
+        }
+        let mut s = default_settings();
+        s.chunk_size = 65_536;
+        s.steps = *rng.pick(&[1usize, 2, 5]);
+        out.push((b.clone(), s.clone(), "bigchunk"));
+        s.language_threshold = OrderedFloat(0.2);
+        out.push((b.clone(), s.clone(), "bigchunk"));
+        let k = b.len() * 2 / 3;
+        out.push((b[..k].to_vec(), s, "bigchunk"));
+    }
     for (b, tag) in base.iter().zip(tags.iter().copied()) {
         let d = default_settings();
         out.push((b.clone(), d.clone(), tag));
@@ -175,6 +194,45 @@ pub fn run_memo(seed: u64, histories: usize, out: &str) -> serde_json::Value {
             }
         }
     }
+    // eviction at single-insertion granularity: a probe entry, then 2,100 distinct filler entries pushed through the
+    // 2048-entry memos ONE AT A TIME, the probe looked up again after every one of them (and a second probe that is
+    // never refreshed, looked up once per 64 fillers and at every step of the last 80 before and after its 2048th successor):
+    // a hit must be the probe's own value whatever has just been overwritten
+    {
+        hooks::flush_caches();
+        let probe = "This sentence is the probe entry of the memo, it has some w$ird words and symbols {} [] ~ in it.".to_string();
+        let probe2 = "A second probe entry that nobody touches for a long while: plain words only, repeated, repeated.".to_string();
+        let want = fbits(hooks::mess_ratio_no_cache(probe.clone(), Some(0.2)));
+        let want2 = fbits(hooks::mess_ratio_no_cache(probe2.clone(), Some(0.2)));
+        let wantc = hooks::coherence_ratio_no_cache(probe.clone(), Some(0.1), Some(vec![])).map(|c| coh_str(&c)).unwrap_or_default();
+        let wantc2 = hooks::coherence_ratio_no_cache(probe2.clone(), Some(0.1), Some(vec![])).map(|c| coh_str(&c)).unwrap_or_default();
+        let _ = hooks::mess_ratio(probe2.clone(), Some(0.2));
+        let _ = hooks::coherence_ratio(probe2.clone(), Some(0.1), Some(vec![]));
+        let _ = hooks::mess_ratio(probe.clone(), Some(0.2));
+        let _ = hooks::coherence_ratio(probe.clone(), Some(0.1), Some(vec![]));
+        'sweep: for k in 0..2200u32 {
+            let t = format!("filler entry number {} made of ordinary words and the number {} again", k, k.wrapping_mul(2654435761));
+            let _ = hooks::mess_ratio(t.clone(), Some(0.2));
+            let _ = hooks::coherence_ratio(t, Some(0.1), Some(vec![]));
+            evals += 1;
+            let got = fbits(hooks::mess_ratio(probe.clone(), Some(0.2)));
+            let gotc = hooks::coherence_ratio(probe.clone(), Some(0.1), Some(vec![])).map(|c| coh_str(&c)).unwrap_or_default();
+            if got != want || gotc != wantc {
+                violations.push(json!({"prop": "C11", "what": format!("after {} further memo insertions the memoised value of an entry is no longer its own: mess bits {} vs {}, coherence {} vs {}", k + 1, got, want, gotc, wantc),
+                    "known": null, "case": {"text_hex": hex(probe.as_bytes()), "insertions_since": k + 1}}));
+                break 'sweep;
+            }
+            if k % 64 == 63 || (1960..2140).contains(&k) {
+                let got2 = fbits(hooks::mess_ratio(probe2.clone(), Some(0.2)));
+                let gotc2 = hooks::coherence_ratio(probe2.clone(), Some(0.1), Some(vec![])).map(|c| coh_str(&c)).unwrap_or_default();
+                if got2 != want2 || gotc2 != wantc2 {
+                    violations.push(json!({"prop": "C11", "what": format!("after {} further memo insertions the memoised value of an untouched entry is no longer its own: mess bits {} vs {}, coherence {} vs {}", k + 1, got2, want2, gotc2, wantc2),
+                        "known": null, "case": {"text_hex": hex(probe2.as_bytes()), "insertions_since": k + 1}}));
+                    break 'sweep;
+                }
+            }
+        }
+    }
     // the memoised primitives against their uncached bodies, same text under different thresholds
     for _ in 0..300 {
         let t = rng.pick(&corpus.texts);
@@ -266,7 +324,7 @@ pub fn run_threads(seed: u64, rounds: usize, out: &str) -> serde_json::Value {
         let identical = r % 3 == 0;
         // every third round: all threads work on DIFFERENT entries of ONE family (astral first), six calls each, so that
         // whatever the library keeps per character / block / word is contended by look-alike inputs
-        let family: Option<&'static str> = if r % 3 == 2 { Some(["astral", "midword", "symbols", "corpus"][(r / 3) % 4]) } else { None };
+        let family: Option<&'static str> = if r % 3 == 2 { Some(["astral", "bigchunk", "midword", "symbols", "corpus"][(r / 3) % 5]) } else { None };
         let members: Vec<usize> = match family { Some(f) => (0..p.len()).filter(|&i| fam[i] == f).collect(), None => vec![] };
         let n = if family.is_some() { n.max(8) } else { n };
         let first = rng.below(p.len());
